@@ -30,7 +30,44 @@ def ovld_strategy(max_ops=30):
     from hypothesis import strategies as st
 
     @st.composite
+    def _switch_case(draw):
+        """A function is used while no method has a type[...] annotation, then one is registered: every call site -
+        the entry point, static recurse / call_next sites and the run-time (starred) ones - must switch its lookup of
+        that position from type(x) to type[x]."""
+        h = {"classes": [{"bases": []}, {"bases": [0]}]}
+        cls = draw(st.sampled_from(["K0", "K1", "int"]))
+        star = draw(st.booleans())
+        sites = [{"fn": "recurse", "npos": 1, "kws": [], "star": star}, {"fn": "call_next", "npos": 1, "kws": [], "star": not star}]
+        methods = [
+            {"id": 0, "prio": 1, "kw": [], "sites": sites, "pos": [{"name": "a0", "ann": ["cls", "str"]}]},
+            {"id": 1, "prio": 0, "kw": [], "sites": [], "pos": [{"name": "a0", "ann": ["cls", "int"]}]},
+            {"id": 2, "prio": 0, "kw": [], "sites": sites, "pos": [{"name": "a0", "ann": ["obj"]}]},
+            {"id": 3, "prio": 0, "kw": [], "sites": [], "pos": [{"name": "a0", "ann": ["type", ["cls", cls]]}]},
+            {"id": 4, "prio": -1, "kw": [], "sites": [], "pos": [{"name": "a0", "ann": ["obj"]}]},
+        ]
+        cobj = ["clsobj", cls]
+        pool = [
+            {"args": [["str", "s"]], "kw": {}, "script": [["site", 0, [cobj], {}]]},
+            {"args": [["str", "s"]], "kw": {}, "script": [["site", 1, [cobj], {}]]},
+            {"args": [cobj], "kw": {}, "script": []},
+            {"args": [["int", 1]], "kw": {}, "script": []},
+            {"args": [["inst", "K1"]], "kw": {}, "script": [["site", 0, [cobj], {}]]},
+        ]
+        ops = [["reg", 0], ["reg", 0], ["reg", 0]]  # methods 0, 1, 2
+        for _ in range(draw(st.integers(1, 3))):
+            ops.append(["call", draw(st.integers(0, 4)), "dispatch"])
+        ops += [["reg", 0]]  # the type[...] method (first unregistered id is 3)
+        for _ in range(draw(st.integers(2, 6))):
+            k = draw(st.sampled_from(["call", "call", "call", "reg", "unreg"]))
+            ops.append(["call", draw(st.integers(0, 4)), draw(st.sampled_from(["dispatch", "ovld"]))] if k == "call"
+                       else [k, draw(st.integers(0, 9))])
+        return {"kind": "ovld", "hier": h, "methods": methods, "host": draw(st.sampled_from(["func", "attr"])),
+                "pool": pool, "ops": ops}
+
+    @st.composite
     def _case(draw):
+        if draw(st.integers(0, 7)) == 0:
+            return draw(_switch_case())
         h = draw(H.hierarchies(1, 5))
         knames = H.class_names(h)
         env = H.build(h)
